@@ -505,7 +505,7 @@ def stepSimple (s : LSt) (op : Op) : Option (LSt × String) :=
       if d.lvl ≠ h.lvl then ok s "badlevel" else
       -- move assignment may assume that both objects outlive the call: refused when the old slot list, which the
       -- assignment releases, may own the source (any flavour) or the destination (read again by trackable_signal)
-      if !h.fl.isAcc && (s.ownedG.any (fun p => p.2 = i) || (h.fl.isTrackable && s.ownedG.any (fun p => p.2 = j)))
+      if !h.fl.isAcc && (s.ownedG.any (fun p => p.2 = i) || s.ownedG.any (fun p => p.2 = j))
       then ok s "owned" else
       if h.fl.isAcc then
         if j = i then ok s "ok" else
